@@ -33,12 +33,58 @@ def harnesses(tier):
     for h in c01.harnesses(tier):
         if h["params"]["kind"] == "chain":
             hs.append(dict(h, twin=h["id"] in ("chain/>s0>a0",)))
+    hs.append({"id": "parsed/roundtrip", "params": {"kind": "parsed"}, "timeout": 300})
     for n, walks in ((0, []), (1, [">s0"]), (2, [">s0>s1", "<a0"]), (3, ["<s1<s0", ">a0>a1", ">s2"]), (3, [">s0", ">s0", ">b0>s1"])):
         hs.append({"id": "stream/%d/%s" % (n, "+".join(walks)), "params": {"kind": "stream", "walks": walks}, "timeout": 400})
     return hs
 
 
+PARSED = [
+    "q0\t50\t1\t11\t+\t>s0>s1\t20\t2\t12\t9\t10\t60\ttp:A:S\tNM:i:-1\tcg:Z:5=1X4=\tzd:Z:a b_#:c\n",
+    "q1\t50\t0\t10\t+\t<s1<s0\t20\t3\t13\t10\t10\t0\tba:B:i,1,-2\ttp:A:I\tcg:Z:10=\n",
+    "q2\t60\t5\t15\t+\t>a0>s1\t15\t1\t11\t8\t10\t7\tdv:f:-.5e-3\tch:A:*\n",
+]
+PARSED_L = [10, 10, 5, 0, 5, 0, 5, 0, 3, 4, 4]
+
+
+def build_parsed():
+    def case(dummy):
+        V = F.M["V"]
+        e = stubs.env()
+        segs = F.layout(PARSED_L)
+        F.set_walk_links([c01.parse_walk(l.split("\t")[5]) for l in PARSED])
+        e.graphs["g.gfa"] = lambda low: F.build_graph(segs)
+        e.files["in.gaf"] = stubs.MFile("text", PARSED, None)
+        V.run("in.gaf", gfa="g.gfa", output="s.gaf", format="stable")
+        st = [str(l) for l in e.files["s.gaf"].lines]
+        if len(st) != 3:
+            return "stable conversion wrote %d lines for 3 records" % len(st)
+        e.files["s_in.gaf"] = stubs.MFile("text", st, None)
+        V.run("s_in.gaf", gfa="g.gfa", output="u.gaf", format="unstable")
+        un = [str(l) for l in e.files["u.gaf"].lines]
+        if len(un) != 3:
+            return "unstable conversion wrote %d lines for 3 records" % len(un)
+        for i in range(3):
+            fi = PARSED[i].rstrip("\n").split("\t")
+            for name, out in (("to stable", st), ("back to unstable", un)):
+                fo = out[i].rstrip("\n").split("\t")
+                for c in (0, 1, 2, 3, 9, 10, 11):
+                    if fo[c] != fi[c]:
+                        return "record %d %s: column %d changed" % (i, name, c + 1)
+                ti = [x for x in fi[12:] if not x.startswith("cg:Z:")]
+                to = [x for x in fo[12:] if not x.startswith("cg:Z:")]
+                if ti != to or len(fo) != len(fi):
+                    return "record %d %s: optional fields %r, input %r" % (i, name, fo[12:], fi[12:])
+            if un[i] != PARSED[i]:
+                return "canonical record %d did not come back unchanged: %r" % (i, un[i])
+        return None
+
+    return Harness([("dummy", "int")], ["dummy == 0"], case, fuel=50)
+
+
 def build(params):
+    if params["kind"] == "parsed":
+        return build_parsed()
     if params["kind"] == "chain":
         walk = c01.parse_walk(params["walk"])
         args = [(a, "int") for a in F.LAYOUT_ARGS + ["ps", "pe", "qlen", "qs", "qe", "nm", "bl", "mq"]]
@@ -48,6 +94,7 @@ def build(params):
             L = a[:11]
             ps, pe = a[11:13]
             cols = a[13:19]
+            F.GRAPH_ORDER[0] = list(reversed(F.ORDER)) if params.get("revorder") else None
             return F.convert_chain(walk, L, ps, pe, 0, cols, "C02")
 
         return Harness(args, pre, case, fuel=50)
@@ -63,6 +110,7 @@ def build(params):
         L = a[:11]
         segs = F.layout(L)
         cols = (100, 0, 100, 5, 20, 60)
+        F.set_walk_links(walks)
         recs = []
         for i, w in enumerate(walks):
             ps, pe = a[11 + 2 * i], a[12 + 2 * i]
@@ -109,6 +157,21 @@ def build(params):
 
 
 def replay(params, model, wd):
+    if params["kind"] == "parsed":
+        segs = F.layout(PARSED_L)
+        gfa, seqs = F.write_rgfa(wd, segs, [c01.parse_walk(l.split("\t")[5]) for l in PARSED])
+        lines = [l.rstrip("\n") for l in PARSED]
+        st, err = F.real_view(wd, gfa, lines, "stable", "p1")
+        un, err2 = F.real_view(wd, gfa, st, "unstable", "p2")
+        if err or err2 or len(st) != 3 or len(un) != 3:
+            return {"reproduced": True, "key": "C02:parsed:exception", "what": "%s %s %d %d" % (err, err2, len(st), len(un))}
+        for i in range(3):
+            if un[i] != lines[i]:
+                fi, fo = lines[i].split("\t"), un[i].split("\t")
+                lost = [x for x in fi[12:] if x not in fo[12:]]
+                return {"reproduced": True, "key": "C02:parsed:%s" % (("lost-" + lost[0][:5]) if lost else "changed"),
+                        "what": "record %r came back as %r (stable form %r)" % (lines[i], un[i], st[i])}
+        return {"reproduced": False, "detail": "parsed records round trip"}
     if params["kind"] == "chain":
         m = dict(model)
         a = model["args"]
